@@ -48,5 +48,12 @@ if __name__ == '__main__':
             res[name] = row
     if matrix:
         det = {n: sorted(p for p, c in row.items() if c == 1) for n, row in res.items()}
+        if args:        # a partial matrix is merged into the recorded one
+            old = json.load(open(f'{V}/seeded/DETECTION.json'))
+            old.update(det)
+            det = old
+            oldw = json.load(open(f'{V}/seeded/DETECTION_RULES.json'))
+            oldw.update(whys)
+            whys = oldw
         json.dump(det, open(f'{V}/seeded/DETECTION.json', 'w'), indent=1, sort_keys=True)
         json.dump(whys, open(f'{V}/seeded/DETECTION_RULES.json', 'w'), indent=1, sort_keys=True)
